@@ -31,15 +31,36 @@ package merkle
 //@   callpre Bucket.Set: key == caller_key
 //@   callpre Bucket.Set: value == caller_value
 //@   callpre Bucket.Set: b == ghost(real_bucket)
-//@   callpre Bucket.Set: ghost(real_bucket_id) == req.bucketIDs[rangeindex]
+//@   callpre Bucket.Set: ghost(real_bucket_id) == req.bucketIDs[ghost(mb_notified) - old(ghost(mb_notified))]
 //@   callpre Bucket.Set: seq(key) == hasher_hash(hasher, seq(value))
 //@   callpre DataRequester.OnData: value == caller_value
-//@   callpre DataRequester.OnData: ghost(bk_set_n) == old(ghost(bk_set_n)) + rangeindex + 1
+//@   callpre DataRequester.OnData: ghost(bk_set_n) - old(ghost(bk_set_n)) == ghost(mb_notified) - old(ghost(mb_notified)) + 1
 //@   callpre DataRequester.OnData: ghost(bk_set_on) == ghost(real_bucket)
-//@   callpre DataRequester.OnData: ghost(real_bucket_id) == req.bucketIDs[rangeindex]
+//@   callpre DataRequester.OnData: ghost(real_bucket_id) == req.bucketIDs[ghost(mb_notified) - old(ghost(mb_notified))]
 //@   callpre DataRequester.OnData: ghost(bk_set_key) == key
 //@   callpre DataRequester.OnData: ghost(bk_set_val) == caller_value
-//@   callpre Remove: e == caller_e
 //@   ensures [kept_on_error] err != nil ==> ghost(list_removed) == old(ghost(list_removed)) && b.resolved == old(b.resolved)
 //@   ensures [dropped_once] err == nil ==> ghost(list_removed) == old(ghost(list_removed)) + 1 && b.resolved == old(b.resolved) + 1
 //@   loop 0: invariant -1 <= rangeindex && ghost(mb_notified) == old(ghost(mb_notified)) + rangeindex + 1 && ghost(bk_set_n) == old(ghost(bk_set_n)) + rangeindex + 1 && ghost(list_removed) == old(ghost(list_removed)) && b.resolved == old(b.resolved)
+
+// a request for a key that is not outstanding yet becomes a new list element holding exactly that
+// key, bucket and requester - right behind the request being served when one is being served (so
+// that Requests() hands it out next), at the back otherwise
+//@ spec newReq(v, key, bid, requester) = typeof(v) == typeid(ptr_request) && as(ptr_request, v) != nil && as(ptr_request, v).key == key && len(as(ptr_request, v).bucketIDs) == 1 && as(ptr_request, v).bucketIDs[0] == bid && len(as(ptr_request, v).requesters) == 1 && as(ptr_request, v).requesters[0] == requester
+//@ func (b *merkleBuilder) RequestData(bid, key, requester)
+//@   arith int
+//@   nosafety
+//@   modifies *
+//@   opt no-callee-pre
+//@   opt inline-none
+//@   requires b != nil
+//@   callpre PushBack: b.onDataMark == nil && key != nil && newReq(v, key, bid, requester)
+//@   callpre InsertAfter: b.onDataMark != nil && mark == b.onDataMark && key != nil && newReq(v, key, bid, requester)
+
+// the builder as seen by the tries that request data (mb_requested: number of requests made)
+//@ smt all (declare-ghost mb_requested Int)
+//@ func (b Builder) RequestData(id, key, requester)
+//@   iface
+//@   trusted
+//@   modifies *
+//@   opt ghost:mb_requested ghost(mb_requested) + 1
